@@ -354,7 +354,7 @@ def show_pos(root, pos):
     return '%s/text(%d)' % (p, pos[2])
 
 
-# --- the fault catalogue (40 entries) ------------------------------------------------------------
+# --- the fault catalogue: the 40 entries of the design + 6 location hints with 1, 2, 3 items ----------
 
 BIG = 100000
 VALUE_FAULTS = [
@@ -391,15 +391,22 @@ XSI_FAULTS = [          # name -> attributes added to an element (xmlns:xsi is a
     ('xsi-nil-junk', [['xsi:nil', 'maybe']]),
     ('xsi-nil-true', [['xsi:nil', 'true']]),
     ('xsi-unknown', [['xsi:foo', 'bar']]),
-    ('xsi-schemaLocation-odd', [['xsi:schemaLocation', 'urn:a  \t urn:b /nonexistent/c11/x.xsd urn:c']]),
+    ('xsi-schemaLocation-odd', [['xsi:schemaLocation', 'urn:a  \t urn:b /nonexistent/c11/x.xsd']]),
     ('xsi-noNamespaceSchemaLocation-junk', [['xsi:noNamespaceSchemaLocation', '%%%:// [bad \x7f']]),
+    # syntactically plausible hints with 1, 2, 3 items; the locations are relative names that do not exist
+    ('xsi-schemaLocation-1', [['xsi:schemaLocation', 'urn:x']]),
+    ('xsi-schemaLocation-2', [['xsi:schemaLocation', 'urn:x nowhere.xsd']]),
+    ('xsi-schemaLocation-3', [['xsi:schemaLocation', 'urn:x nowhere.xsd urn:y']]),
+    ('xsi-noNamespaceSchemaLocation-1', [['xsi:noNamespaceSchemaLocation', 'nowhere.xsd']]),
+    ('xsi-noNamespaceSchemaLocation-2', [['xsi:noNamespaceSchemaLocation', 'nowhere.xsd nowhere2.xsd']]),
+    ('xsi-noNamespaceSchemaLocation-3', [['xsi:noNamespaceSchemaLocation', 'nowhere.xsd nowhere2.xsd nowhere3.xsd']]),
 ]
 NS_FAULTS = ['ns-elem-unknown', 'ns-attr-unknown', 'ns-elem-unbound', 'ns-default-redeclared']
 STRUCT_FAULTS = ['dup-child', 'drop-child', 'insert-comment', 'insert-pi', 'insert-text']
 
 CATALOGUE = ([f[0] for f in VALUE_FAULTS] + [f[0] for f in QNAME_FAULTS] + [f[0] for f in XSI_FAULTS]
              + NS_FAULTS + STRUCT_FAULTS)
-assert len(CATALOGUE) == 40 and len(set(CATALOGUE)) == 40
+assert len(CATALOGUE) == 46 and len(set(CATALOGUE)) == 46
 _VAL = dict(VALUE_FAULTS + QNAME_FAULTS)
 _XSI = dict(XSI_FAULTS)
 HEAVY = {'long-text', 'long-digits'}       # 10^5-character values
